@@ -456,11 +456,4 @@ Section Parser.
     destruct BI as [_ S2 B _ _ _ T0 _ _ _]. unfold tok_start, tok_end. lia.
   Qed.
 
-  (* err_before_ws / warn_before_ws: pos .. pos+1 *)
-  Lemma err_before_ws_range : forall ls st,
-    Good ls st -> total_len ls = length text ->
-    (p_start (b0 st) + 1 <= length text <-> s_pos (sk st) < length text).
-  Proof.
-    intros ls st [[c BI] I] T. destruct BI as [_ S2 B _ _ _ _ _ _ _]. lia.
-  Qed.
 End Parser.
